@@ -232,6 +232,56 @@ def stream_requests(tier):
     return res
 
 
+def _scribble(x, depth=0):
+    """mutate every dict / list reachable from a decoded request in place (what an adapter, or the server's own init code,
+    is free to do with the object it was handed)"""
+    if depth > 4:
+        return
+    if isinstance(x, dict):
+        for v in list(x.values()):
+            _scribble(v, depth + 1)
+        x["__scribbled__"] = "x"
+    elif isinstance(x, list):
+        for v in x:
+            _scribble(v, depth + 1)
+        x.append("__scribbled__")
+    elif hasattr(x, "__dict__") and type(x).__module__.startswith("lightstreamer_adapter"):
+        for v in list(vars(x).values()):
+            _scribble(v, depth + 1)
+
+
+def stream_decode_pure(tier):
+    """C06: decoding is a function of the request line alone — the values one request decodes to are not shared with, and
+    cannot be changed through, the values of another (every decoded container is scribbled on before the next decode)."""
+    R = C.rng("requests-pure")
+    res = Result("requests-decode-is-a-function-of-the-line")
+    n = {"quick": 60, "search": 150, "thorough": 1500}[tier]
+    for method in ari.METHODS:
+        for j in range(n):
+            fixed, tail = gen_request(method, R)
+            if j % 3 == 0 and tail is not None and isinstance(tail, (list, tuple, dict)):
+                tail = type(tail)()                      # zero pairs / zero elements / zero tables
+            toks = ari.encode_args(method, fixed, tail)
+            want = expected(method, fixed, tail)
+            for rep in range(2):
+                ans, got = c_read(method, toks)
+                res.evaluations += 1
+                if not ans.startswith("ok ") or got != want:
+                    res.violation("decode-depends-on-history:" + method,
+                                  "read_%s(%r) gives %r after an earlier decoded request was modified by its receiver; sent %r" % (
+                                      method, toks[:8], got if ans.startswith("ok") else ans, want),
+                                  {"method": method, "tokens": toks, "decode_number": rep + 1})
+                    break
+                try:
+                    raw = ari.reader(method)(list(toks))
+                except Exception:
+                    break
+                _scribble(raw)
+            res.nontrivial.add((method, tuple(toks)))
+            res.distribution["empty_tail" if not tail else "nonempty_tail"] += 1
+    return res
+
+
 def stream_lines_e2e(tier):
     """C06 end to end: conforming request lines (CRLF and bare LF, mixed) through the REAL reader loop
     (_RequestManager._do_run on a scripted socket, random read segmentation), then parse_request and read_<method>:
